@@ -2,7 +2,8 @@ package sim
 
 // Crash-injecting database for C09 (fault enumeration on the real code).
 //
-// CrashDB wraps a tm-db database.  While armed it numbers every DURABLE WRITE the node issues
+// CrashDB wraps a tm-db database; every incarnation of the node gets its own Handle (a dbm.DB).
+// While armed it numbers every DURABLE WRITE the node issues
 // (Set / SetSync / Delete / DeleteSync, and every non-empty batch Write / WriteSync as ONE write),
 // classifies it by key prefix, and lets the writes with index < CrashAt through.  The write with
 // index CrashAt is not applied: the wrapper panics with ErrCrash (the process "dies" inside the
@@ -13,9 +14,11 @@ package sim
 // (the database is constructor-injected everywhere).
 
 import (
+	"bytes"
 	"encoding/binary"
 	"encoding/hex"
 	"fmt"
+	"runtime"
 	"sort"
 	"sync"
 
@@ -61,7 +64,7 @@ type WriteRec struct {
 }
 
 type CrashDB struct {
-	dbm.DB
+	DB      dbm.DB // the surviving content
 	mu      sync.Mutex
 	armed   bool
 	n       int
@@ -71,6 +74,9 @@ type CrashDB struct {
 	Occ    int
 	byKind map[string]int
 	dead   bool
+	gen    int    // current incarnation (see Handle)
+	owner  uint64 // goroutine that armed the window: only it "is" the process that dies
+	calls  int    // write calls of the armed window, discarded ones included
 	Log    []WriteRec
 	Lost   *WriteRec // the write the process died in (set at the crash point)
 	Empty  int       // empty batches seen while armed (not numbered)
@@ -90,6 +96,29 @@ func (c *CrashDB) Arm(crashAt int) {
 	defer c.mu.Unlock()
 	c.armed, c.n, c.CrashAt, c.dead, c.Log, c.Empty, c.Lost = true, 0, crashAt, false, nil, 0, nil
 	c.Kind, c.Occ, c.byKind = "", 0, map[string]int{}
+	c.owner, c.calls = goid(), 0
+}
+
+// goid returns the id of the calling goroutine.
+func goid() uint64 {
+	var buf [64]byte
+	n := runtime.Stack(buf[:], false)
+	var id uint64
+	for _, ch := range buf[len("goroutine "):n] {
+		if ch < '0' || ch > '9' {
+			break
+		}
+		id = id*10 + uint64(ch-'0')
+	}
+	return id
+}
+
+// Calls returns the number of write calls seen in the armed window (for waiting until background
+// writers of the node have gone quiet).
+func (c *CrashDB) Calls() int {
+	c.mu.Lock()
+	defer c.mu.Unlock()
+	return c.calls
 }
 
 // ArmKind starts a numbered window in which the process dies inside the occ-th write of the given kind.
@@ -124,16 +153,29 @@ func (c *CrashDB) Dead() bool {
 // Inner returns the wrapped database (the survivor).
 func (c *CrashDB) Inner() dbm.DB { return c.DB }
 
-// gate decides the fate of one write; returns true when it must be applied.
-func (c *CrashDB) gate(rec WriteRec) bool {
+// gate decides the fate of one write; returns true when it must be applied.  The goroutine that
+// armed the window dies (panics) inside the crash write and inside every later write; writes of
+// other goroutines of the doomed process (background cleaners) are silently discarded from the
+// crash point on - a foreign goroutine reaching the crash point marks the process dead.
+func (c *CrashDB) gate(gen int, rec WriteRec) bool {
 	c.mu.Lock()
+	if gen != c.gen {
+		// a goroutine of an earlier incarnation of the node (the process it belonged to is gone)
+		c.mu.Unlock()
+		return false
+	}
 	if !c.armed {
 		c.mu.Unlock()
 		return true
 	}
+	c.calls++
 	if c.dead {
+		at := c.CrashAt
 		c.mu.Unlock()
-		panic(ErrCrash{Index: c.CrashAt})
+		if goid() != c.owner {
+			return false
+		}
+		panic(ErrCrash{Index: at})
 	}
 	rec.I = c.n
 	if c.Budget > 0 && c.n+c.Empty > c.Budget {
@@ -148,6 +190,9 @@ func (c *CrashDB) gate(rec WriteRec) bool {
 		lost := rec
 		c.Lost = &lost
 		c.mu.Unlock()
+		if goid() != c.owner {
+			return false
+		}
 		panic(ErrCrash{Index: rec.I})
 	}
 	c.n++
@@ -158,35 +203,52 @@ func (c *CrashDB) gate(rec WriteRec) bool {
 
 func cp(b []byte) []byte { return append([]byte(nil), b...) }
 
-func (c *CrashDB) Set(k, v []byte) error {
-	if c.gate(c.classify([]KeyOp{{Key: cp(k), Val: cp(v)}}, false)) {
-		return c.DB.Set(k, v)
+// Handle is the database as ONE incarnation of the node sees it.  NewHandle starts a new
+// incarnation: every write still issued through an older handle (background goroutines of a
+// process that has been killed or abandoned) is discarded from then on.
+type Handle struct {
+	dbm.DB // reads go to the surviving content
+	C      *CrashDB
+	gen    int
+}
+
+func (c *CrashDB) NewHandle() *Handle {
+	c.mu.Lock()
+	defer c.mu.Unlock()
+	c.gen++
+	return &Handle{DB: c.DB, C: c, gen: c.gen}
+}
+
+func (h *Handle) Set(k, v []byte) error {
+	if h.C.gate(h.gen, h.C.classify([]KeyOp{{Key: cp(k), Val: cp(v)}}, false)) {
+		return h.C.DB.Set(k, v)
 	}
 	return nil
 }
-func (c *CrashDB) SetSync(k, v []byte) error {
-	if c.gate(c.classify([]KeyOp{{Key: cp(k), Val: cp(v)}}, false)) {
-		return c.DB.SetSync(k, v)
+func (h *Handle) SetSync(k, v []byte) error {
+	if h.C.gate(h.gen, h.C.classify([]KeyOp{{Key: cp(k), Val: cp(v)}}, false)) {
+		return h.C.DB.SetSync(k, v)
 	}
 	return nil
 }
-func (c *CrashDB) Delete(k []byte) error {
-	if c.gate(c.classify([]KeyOp{{Del: true, Key: cp(k)}}, false)) {
-		return c.DB.Delete(k)
+func (h *Handle) Delete(k []byte) error {
+	if h.C.gate(h.gen, h.C.classify([]KeyOp{{Del: true, Key: cp(k)}}, false)) {
+		return h.C.DB.Delete(k)
 	}
 	return nil
 }
-func (c *CrashDB) DeleteSync(k []byte) error {
-	if c.gate(c.classify([]KeyOp{{Del: true, Key: cp(k)}}, false)) {
-		return c.DB.DeleteSync(k)
+func (h *Handle) DeleteSync(k []byte) error {
+	if h.C.gate(h.gen, h.C.classify([]KeyOp{{Del: true, Key: cp(k)}}, false)) {
+		return h.C.DB.DeleteSync(k)
 	}
 	return nil
 }
 
-func (c *CrashDB) NewBatch() dbm.Batch { return &crashBatch{c: c} }
+func (h *Handle) NewBatch() dbm.Batch { return &crashBatch{c: h.C, gen: h.gen} }
 
 type crashBatch struct {
 	c    *CrashDB
+	gen  int
 	ops  []KeyOp
 	done bool
 }
@@ -212,7 +274,7 @@ func (b *crashBatch) write(sync bool) error {
 	b.done = true
 	if len(b.ops) == 0 {
 		b.c.mu.Lock()
-		if b.c.armed {
+		if b.c.armed && b.gen == b.c.gen {
 			b.c.Empty++
 			if b.c.Budget > 0 && b.c.n+b.c.Empty > b.c.Budget {
 				calls := b.c.n + b.c.Empty
@@ -223,7 +285,7 @@ func (b *crashBatch) write(sync bool) error {
 		b.c.mu.Unlock()
 		return nil
 	}
-	if !b.c.gate(b.c.classify(b.ops, true)) {
+	if !b.c.gate(b.gen, b.c.classify(b.ops, true)) {
 		return nil
 	}
 	ib := b.c.DB.NewBatch()
@@ -354,10 +416,24 @@ func (c *CrashDB) rootAbove(ops []KeyOp, v int64) bool {
 // indexKinds are the per-transaction index entries block insertion writes
 var indexKinds = map[string]bool{"TxIdx": true, "RcIdx": true, "OwnTx": true, "Burnt": true, "Event": true}
 
+// current reports whether a tree key belongs to the tree database the node currently uses (the
+// prefix stored under the key {1} for the state tree, {2} for the identity tree).
+func (c *CrashDB) current(key []byte) bool {
+	if len(key) < 10 {
+		return true
+	}
+	cur, err := c.DB.Get([]byte{key[0]})
+	if err != nil || cur == nil {
+		return true
+	}
+	return bytes.Equal(cur, key[:9])
+}
+
 func (c *CrashDB) classify(ops []KeyOp, batch bool) WriteRec {
 	r := WriteRec{Batch: batch, NOps: len(ops), H: -1, Pfx: -1, Set: []int64{}, Del: []int64{}, ops: ops}
 	kinds := map[string]int{}
 	tree := ""
+	cur := true
 	for _, o := range ops {
 		kk := KeyKind(o.Key)
 		kinds[kk]++
@@ -365,6 +441,7 @@ func (c *CrashDB) classify(ops []KeyOp, batch bool) WriteRec {
 			if tree == "" {
 				tree = kk[:1]
 				r.Pfx = int64(binary.LittleEndian.Uint64(o.Key[1:9]))
+				cur = c.current(o.Key)
 			}
 			if kk[1] == 'r' && len(o.Key) >= 18 {
 				v := int64(binary.BigEndian.Uint64(o.Key[10:18]))
@@ -379,21 +456,38 @@ func (c *CrashDB) classify(ops []KeyOp, batch bool) WriteRec {
 	}
 	sort.Slice(r.Del, func(i, j int) bool { return r.Del[i] < r.Del[j] })
 	if tree != "" {
-		// a tree batch: commit of a version, deletion of versions, or node-only flush
 		r.Tree = tree
+		r.Sub = tree
+		// trees of a database the node does not use yet / any more: snapshot being imported (state),
+		// preliminary identity tree (fast sync), replaced databases being deleted
+		name := tree
+		if !cur {
+			name = map[string]string{"S": "Snap", "I": "P"}[tree]
+		}
 		switch {
+		case !batch && !cur && ops[0].Del:
+			r.K = "DropOld"
+		case !batch && !cur && tree == "I":
+			r.K = "PCopy"
+		case !batch:
+			r.K = name + "Put"
+			if ops[0].Del {
+				r.K = name + "Del"
+			}
+		case !cur && tree == "S":
+			r.K = "SnapImport"
 		case len(r.Set) > 0:
-			r.K = tree + "Commit"
+			r.K = name + "Commit"
 		case len(r.Del) > 0:
 			// deleting the highest saved versions is a rollback (LoadVersionForOverwriting),
 			// deleting lower ones is pruning (DeleteVersion of the versions beyond the retained ones)
 			if c.rootAbove(ops, r.Del[len(r.Del)-1]) {
-				r.K = tree + "Prune"
+				r.K = name + "Prune"
 			} else {
-				r.K = tree + "Rollback"
+				r.K = name + "Rollback"
 			}
 		default:
-			r.K = tree + "Nodes"
+			r.K = name + "Nodes"
 		}
 		for kk := range kinds {
 			if !(len(kk) == 2 && kk[:1] == tree) {
@@ -441,10 +535,14 @@ func (c *CrashDB) classify(ops []KeyOp, batch bool) WriteRec {
 			}
 		}
 		sort.Strings(r.Extra)
-		// a head written inside a batch (fast-sync switch): expose it
 		for _, o := range ops {
+			// a head written inside a batch (fast-sync switch): expose it
 			if KeyKind(o.Key) == "Head" && !o.Del && c.HeadId != nil {
 				r.Id, r.H = c.HeadId(o.Val)
+			}
+			// the batch that moves the state-tree prefix is the fast-sync switch
+			if KeyKind(o.Key) == "PfxS" {
+				r.K = "Switch"
 			}
 		}
 	}
